@@ -33,7 +33,8 @@ func runC06(c *core.Ctx) {
 	c.Rule("R5", "delegate publication order and readiness gate", 5)
 	c.Rule("R6", "broadcast invalidation: same key, version not older, superset loop before any 'true'", 2)
 	c.Rule("R8", "a merge is treated as a full-state local CAS only for a CAS on a version that was read (flag = casVersion > 0, passed on unchanged)", 2)
-	c.Rule("R9", "push/pull sends the stored value with its tombstones", 1)
+	c.Rule("R9", "push/pull sends the stored value with its tombstones, freshly encoded", 2)
+	c.Rule("R10", "every queued update is consumed by its key's worker only; watcher lists are edited by append / slice-out only", 2)
 	c.Rule("R7", "ring Mergeables accept an incoming entry by the same LWW table whatever the origin (local CAS or gossip)", 3)
 	pkg := c.Prog.Pkg("kv/memberlist")
 	if pkg == nil {
@@ -49,6 +50,7 @@ func runC06(c *core.Ctx) {
 	c06MergeOrigin(c)
 	c03ComputeNewValue(c, "R8")
 	c04LocalState(c, "R9")
+	c06Queues(c, pkg)
 }
 
 // c06Invalidates (R6): a queued broadcast is dropped in favour of a newer one only when that one is for
@@ -679,4 +681,63 @@ func thoroughC06(c *core.Ctx) {
 	if n == 0 {
 		c.Undec("T1", "impls", token.NoPos, "no implementations found")
 	}
+}
+
+// c06Queues (R10): (a) a received update that was queued is processed: the only code that receives from
+// a per-key worker channel (chan valueUpdate) is the worker loop processValueUpdate — nothing drains or
+// discards the queue; (b) the watcher lists are edited by appending a channel or slicing the matching
+// one out — no element of such a list is overwritten in place (a live watcher would silently stop
+// being notified).
+func c06Queues(c *core.Ctx, pkg *packages.Package) {
+	isUpd := func(t types.Type) bool {
+		ch, ok := t.Underlying().(*types.Chan)
+		return ok && strings.HasSuffix(ch.Elem().String(), "memberlist.valueUpdate")
+	}
+	var recvSites []string
+	nRecv := 0
+	var pos token.Pos
+	var stores []string
+	for _, top := range an.Funcs(pkg) {
+		for _, fn := range append([]*an.Fn{top}, top.AllLits()...) {
+			fn := fn
+			fn.InspectShallow(func(n ast.Node) bool {
+				switch x := n.(type) {
+				case *ast.UnaryExpr:
+					if x.Op == token.ARROW {
+						if t := fn.Info().TypeOf(x.X); t != nil && isUpd(t) {
+							nRecv++
+							if top.Name != "(*KV).processValueUpdate" {
+								recvSites = append(recvSites, fn.Name+" at "+c.Prog.PosStr(x.Pos()))
+								pos = x.Pos()
+							}
+						}
+					}
+				case *ast.RangeStmt:
+					if t := fn.Info().TypeOf(x.X); t != nil && isUpd(t) {
+						nRecv++
+						if top.Name != "(*KV).processValueUpdate" {
+							recvSites = append(recvSites, fn.Name+" at "+c.Prog.PosStr(x.Pos()))
+							pos = x.Pos()
+						}
+					}
+				case *ast.AssignStmt:
+					for _, l := range x.Lhs {
+						ix, ok := an.Unparen(l).(*ast.IndexExpr)
+						if !ok {
+							continue
+						}
+						if sl, ok := fn.Info().TypeOf(ix.X).Underlying().(*types.Slice); ok {
+							if ch, ok := sl.Elem().Underlying().(*types.Chan); ok && ch.Elem().String() == "string" {
+								stores = append(stores, fn.Name+" at "+c.Prog.PosStr(x.Pos()))
+								pos = x.Pos()
+							}
+						}
+					}
+				}
+				return true
+			})
+		}
+	}
+	c.Check(len(recvSites) == 0 && nRecv >= 1, "R10", "queue:receivers", pos, fmt.Sprintf("%d receive sites on worker channels, all inside processValueUpdate; others: %v", nRecv, recvSites), nRecv)
+	c.Check(len(stores) == 0, "R10", "watchers:no-element-store", pos, fmt.Sprintf("no element of a watcher list ([]chan string) is overwritten in place: %v", stores), 1)
 }
